@@ -155,6 +155,11 @@ Cfgs ==
               terms |-> <<T(Lit(<<"a">>), {1, 2}), T(Lit(<<"p">>), {1, 2}), T(Lit(<<"r">>), {1, 2}), T(Lit(<<"a", "a">>), {2})>>,
               modes |-> <<Mode(TRUE, TRUE, <<>>, <<>>, FALSE, {}, {[ty |-> 6, act |-> "push", to |-> 2], [ty |-> 7, act |-> "pop", to |-> 0]}),
                           Mode(TRUE, TRUE, <<>>, <<>>, FALSE, {5}, {[ty |-> 6, act |-> "push", to |-> 1], [ty |-> 7, act |-> "pop", to |-> 0]})>>],
+   \* a token that is skipped in state 2 and switches back to state 1 where it is an ordinary token
+   skipsw |-> [alphabet |-> Ch({"a", "o", "c", " "}), errpat |-> "any",
+              terms |-> <<T(Lit(<<"a">>), {1, 2}), T(Lit(<<"o">>), {1, 2}), T(Lit(<<"c">>), {1, 2})>>,
+              modes |-> <<Mode(TRUE, TRUE, <<>>, <<>>, FALSE, {}, {[ty |-> 6, act |-> "push", to |-> 2]}),
+                          Mode(TRUE, TRUE, <<>>, <<>>, FALSE, {7}, {[ty |-> 7, act |-> "pop", to |-> 0]})>>],
    cmt   |-> [alphabet |-> Ch({"/", "*", "a", NL, " "}), errpat |-> "any",
               terms |-> <<T(Lit(<<"a">>), {1}), T(Lit(<<"/">>), {1}), T(Lit(<<"*">>), {1})>>,
               modes |-> <<Mode(TRUE, TRUE, <<<<"/", "/">>>>, << <<<<"/", "*">>, <<"*", "/">>>> >>, FALSE, {}, {})>>],
